@@ -25,6 +25,42 @@ func Shard() (int, int) {
 	return i, n
 }
 
+// ExecGuard is the wall-clock guard for ONE execution in a shard (executions
+// take milliseconds; a shard that exceeds it reports the sequence as hanging).
+var ExecGuard = 120 * time.Second
+
+var (
+	curMu    sync.Mutex
+	curTimer *time.Timer
+)
+
+type current struct {
+	Part   string `json:"part"`
+	Prefix []int  `json:"prefix"`
+}
+
+// noteCurrent records the sequence about to be executed so that the parent
+// can re-run it in isolation if this process dies or hangs.
+func noteCurrent(part string, prefix []int) {
+	path := os.Getenv("VERIF_SHARD_OUT") + ".cur"
+	curMu.Lock()
+	defer curMu.Unlock()
+	if curTimer != nil {
+		curTimer.Stop()
+		curTimer = nil
+	}
+	if part == "" {
+		os.Remove(path)
+		return
+	}
+	b, _ := json.Marshal(current{part, prefix})
+	os.WriteFile(path, b, 0o644)
+	curTimer = time.AfterFunc(ExecGuard, func() {
+		fmt.Fprintf(os.Stderr, "SHARD-HANG part=%s prefix=%v exceeded %s\n", part, prefix, ExecGuard)
+		os.Exit(7)
+	})
+}
+
 type partial struct {
 	Parts       []*PartStats   `json:"parts"`
 	Violations  []*Violation   `json:"violations"`
@@ -76,6 +112,7 @@ func (r *Report) RunSharded(n int, args []string) {
 	wg.Wait()
 	merged := map[string]*PartStats{}
 	var order []string
+	var failed []int
 	stateSets := map[string]map[uint64]struct{}{}
 	for i := 0; i < n; i++ {
 		b, err := os.ReadFile(filepath.Join(dir, fmt.Sprintf("%d.json", i)))
@@ -84,8 +121,8 @@ func (r *Report) RunSharded(n int, args []string) {
 			if len(tail) > 3000 {
 				tail = tail[len(tail)-3000:]
 			}
-			r.Inconclusive(fmt.Sprintf("shard %d/%d did not finish: %v", i, n, errs[i]))
 			r.shardFailures = append(r.shardFailures, fmt.Sprintf("shard %d: %v\n%s", i, errs[i], tail))
+			failed = append(failed, i)
 			continue
 		}
 		var p partial
@@ -138,6 +175,20 @@ func (r *Report) RunSharded(n int, args []string) {
 		}
 		r.inconcl = append(r.inconcl, p.Inconcl...)
 	}
+	// dead or hung shards: re-run what they were executing, in isolation (at most 4 of them, concurrently)
+	var iwg sync.WaitGroup
+	for k, i := range failed {
+		if k >= 4 {
+			r.Inconclusive(fmt.Sprintf("shard %d/%d did not finish: %v (not re-run: 4 other failed shards were)", i, n, errs[i]))
+			continue
+		}
+		iwg.Add(1)
+		go func(i int) {
+			defer iwg.Done()
+			r.isolate(i, n, filepath.Join(dir, fmt.Sprintf("%d.json.cur", i)), errs[i], "")
+		}(i)
+	}
+	iwg.Wait()
 	for _, name := range order {
 		m := merged[name]
 		if len(stateSets[name]) > 0 {
@@ -171,4 +222,120 @@ func ScratchDir() string {
 		return "/dev/shm"
 	}
 	return os.TempDir()
+}
+
+// isolate re-runs the sequence a dead/hung shard was executing, 5 times, each
+// in its own process. Only an outcome that reproduces every time is a
+// violation; anything else is inconclusive (no alarm).
+func (r *Report) isolate(i, n int, curFile string, shardErr error, tail string) {
+	b, err := os.ReadFile(curFile)
+	var cur current
+	if err != nil || json.Unmarshal(b, &cur) != nil || cur.Part == "" {
+		r.Inconclusive(fmt.Sprintf("shard %d/%d died outside an execution: %v", i, n, shardErr))
+		return
+	}
+	cj, _ := json.Marshal(cur.Prefix)
+	crashes := 0
+	var last string
+	var mu sync.Mutex
+	var wg sync.WaitGroup
+	for k := 0; k < 5; k++ {
+		wg.Add(1)
+		go func() {
+			defer wg.Done()
+			cmd := exec.Command(os.Args[0], "exec-one", r.Property, cur.Part, string(cj))
+			cmd.Env = append(os.Environ(), "GOMAXPROCS=1", "VERIF_SHARD=", "GOTRACEBACK=single")
+			out, err := cmd.CombinedOutput()
+			s := string(out)
+			if len(s) > 2500 {
+				s = s[:1200] + "\n...\n" + s[len(s)-1200:]
+			}
+			mu.Lock()
+			defer mu.Unlock()
+			if ee, ok := err.(*exec.ExitError); ok && ee.ExitCode() != 0 && ee.ExitCode() != 1 && ee.ExitCode() != 3 {
+				crashes++
+				last = s
+			} else if last == "" {
+				last = s
+			}
+		}()
+	}
+	wg.Wait()
+	r.Inconclusive(fmt.Sprintf("shard %d/%d stopped at part=%s prefix=%v (%v); the rest of its subtree was not explored", i, n, cur.Part, cur.Prefix, shardErr))
+	if crashes == 5 {
+		kind := "process-crash"
+		if ee, ok := shardErr.(*exec.ExitError); ok && ee.ExitCode() == 7 {
+			kind = "hang"
+		}
+		v := &Violation{Part: cur.Part, Key: kind + "/" + CrashClass(last), Message: fmt.Sprintf("the process executing choice sequence %v %s (5 of 5 isolated re-runs): %s", cur.Prefix, map[string]string{"process-crash": "dies", "hang": "does not finish within the guard"}[kind], firstLine(CrashLine(last))), Choices: cur.Prefix, Stack: last, Replays: 5}
+		r.mu.Lock()
+		r.violations = append(r.violations, v)
+		r.mu.Unlock()
+	}
+}
+
+// CrashLine extracts the fatal line of a Go crash dump.
+func CrashLine(out string) string {
+	for _, l := range splitLines(out) {
+		if len(l) > 6 && (l[:6] == "fatal " || l[:6] == "panic:" || (len(l) > 10 && l[:10] == "SHARD-HANG") || (len(l) > 8 && l[:8] == "runtime:")) {
+			return l
+		}
+	}
+	return firstLine(out)
+}
+
+// CrashClass is a short stable class of the crash.
+func CrashClass(out string) string {
+	l := CrashLine(out)
+	switch {
+	case contains(l, "stack overflow") || contains(l, "stack exceeds"):
+		return "stack-overflow"
+	case contains(l, "SHARD-HANG"):
+		return "no-return"
+	case contains(l, "all goroutines are asleep"):
+		return "deadlock"
+	}
+	if len(l) > 40 {
+		l = l[:40]
+	}
+	return l
+}
+
+func contains(s, sub string) bool {
+	for i := 0; i+len(sub) <= len(s); i++ {
+		if s[i:i+len(sub)] == sub {
+			return true
+		}
+	}
+	return false
+}
+
+func splitLines(s string) []string {
+	var out []string
+	start := 0
+	for i := 0; i < len(s); i++ {
+		if s[i] == '\n' {
+			out = append(out, s[start:i])
+			start = i + 1
+		}
+	}
+	return append(out, s[start:])
+}
+
+// ExecOne runs one sequence under the execution guard (used by `exec-one`).
+func ExecOne(body Body, prefix []int) int {
+	t := time.AfterFunc(ExecGuard, func() {
+		fmt.Fprintf(os.Stderr, "SHARD-HANG prefix=%v exceeded %s\n", prefix, ExecGuard)
+		os.Exit(7)
+	})
+	defer t.Stop()
+	out, hist := Replay(body, prefix)
+	for _, h := range hist {
+		fmt.Println("  ", h)
+	}
+	if out.Violation != "" {
+		fmt.Println("violation:", out.Violation)
+		return 1
+	}
+	return 0
 }
